@@ -182,6 +182,10 @@ for sz in ['e8', 'z0', 'e12']:
     add('k2_misc', 'reserve_exact_' + sz, 'reserve_h::<%s>(true)' % TY[sz], props=['C10'], tier=tier_for(sz, {'e8'}), cost=60 if sz in SLOW else 10)
     add('k2_misc', 'shrink_to_' + sz, 'shrink_h::<%s>(false)' % TY[sz], props=['C10', 'C05'], tier=tier_for(sz, {'e8', 'z0'}), cost=60 if sz in SLOW else 10)
     add('k2_misc', 'shrink_to_fit_' + sz, 'shrink_h::<%s>(true)' % TY[sz], props=['C10'], tier=tier_for(sz, {'e8'}), cost=60 if sz in SLOW else 10)
+add('k2_misc', 'reserve_typed_e8', 'reserve_ht::<E8>(false, true)', props=['C10'], tier='q', cost=10)
+add('k2_misc', 'reserve_exact_typed_e8', 'reserve_ht::<E8>(true, true)', props=['C10'], tier='q', cost=10)
+add('k2_misc', 'shrink_to_typed_e8', 'shrink_ht::<E8>(false, true)', props=['C10'], tier='q', cost=10)
+add('k2_misc', 'shrink_to_fit_typed_e8', 'shrink_ht::<E8>(true, true)', props=['C10'], tier='q', cost=10)
 for nm, ty, ex in [('reserve_overflow_e8', 'E8', 'false'), ('reserve_exact_overflow_e8', 'E8', 'true'), ('reserve_overflow_z0', 'Z0', 'false'), ('reserve_exact_overflow_z0', 'Z0', 'true')]:
     add('k2_misc', nm, 'reserve_overflow_h::<%s>(%s)' % (ty, ex), props=['C10'], tier='q', kind='panic', attrs=['#[kani::should_panic]'],
         allow=[r'capacity overflow', r'core::option::expect_failed', r'Option::<.*>::expect'], cost=5)
